@@ -85,6 +85,8 @@ def run(ctx, prog):
             ctx.broken.append(b)
 
     keyval(ctx, prog)
+    from rules import oncefree
+    oncefree.run(ctx, prog)
     unlink(ctx, prog)
     alias(ctx, prog)
     iter_stale(ctx, prog)
